@@ -23,7 +23,7 @@ CARRIERS = {
     'semi': 'a = 1; b = 2\nc = 3\n',
     'semi_multi': 'x = [1,\n     2]; y = 3\nz = 4\n',
     'whileelse': 'while a:\n    pass\nelse:\n    pass\nif a + b:\n    c\n',
-    'tailcmt': 'if a:\n  x=1+2\nelse:\n  for i in j:\n    y=3+4\n',
+    'tailcmt': 'if a:\n x=1+2\nelse:\n for i in j:\n  y=3+4\n',
     'tryexc': 'try:\n    a\nexcept E as e:\n    b\nfinally:\n    c\n',
     'def': 'def f(a, b=1):\n    """d"""\n    return a\nx = f(1)\n',
     'uni': 'é = "ñ"; y = é\nif é:\n    z = "𝒳"  # ç\n',
@@ -178,20 +178,20 @@ def _mk_rawput(key):
 FNR = ['fst.fst.FST.put_src', 'fst.fst_raw._reparse_raw', 'fst.fst_raw._reparse_raw_stmtlike', 'fst.fst_raw._reparse_raw_base', 'fst.fst_misc.clip_src_loc',
        'fst.fst.FST.find_contains_loc', 'fst.fst_core._put_src', 'fst.fst_core._offset', 'fst.fst_core._set_ast']
 CELLS = []
-_Q = {('semi', 3), ('uni2', 2), ('semi_multi', 5), ('whileelse', 12), ('tryexc', 14), ('tailcmt', 9)}
+_Q = {('semi', 3), ('uni2', 2), ('whileelse', 12), ('tailcmt', 9)}
 for _k in CARRIERS:
     _nl = len(CARRIERS[_k].split('\n'))
     for _ti in range(len(TEXTS)):
         if (_k, _ti) not in _Q and not (TEXTS[_ti] in ('', ' ', '\n', 'if q:', 'pass\n', '# k', 'u = 0\n    ') and _k in ('ifblock', 'elif', 'semi', 'semi_multi', 'tryexc', 'uni', 'uni2', 'match')
                                         or TEXTS[_ti] in ('', '\n') and _k in ('cls', 'with', 'def')):
-            if (_k, _ti) not in (('whileelse', 13), ('whileelse', 16), ('elif', 13), ('elif', 12), ('tryexc', 15), ('match', 16), ('def', 15)):
+            if (_k, _ti) not in (('semi_multi', 5), ('tryexc', 14), ('whileelse', 13), ('whileelse', 16), ('elif', 13), ('elif', 12), ('tryexc', 15), ('match', 16), ('def', 15)):
                 continue      # sized out of the thorough tier (all 108 carrier x text pairs were swept concretely at build time: 115,464 rectangles, see DESIGN.md)
         _parts = ['reversed'] + [(a_, b_) for a_ in range(_nl) for b_ in range(a_, _nl)]
         for _p in _parts:
             CELLS.append(Cell(f'P1.put_src[{_k},{TEXTS[_ti]!r},lines={_p if _p == "reversed" else str(_p[0]) + "-" + str(_p[1])}]', _mk_putsrc(_k, _ti, _p), 'P', FNR,
                               f'carrier {_k!r}; replacement text {TEXTS[_ti]!r}; rectangle (ln, col, end_ln, end_col) symbolic over all of Z^4 restricted to those that '
                               + ('are reversed (end before start)' if _p == 'reversed' else f'clip to lines {_p[0]}..{_p[1]}'),
-                              tier='quick' if (_k, _ti) in _Q and (_nl <= 5 or _p == 'reversed' or _p[1] - _p[0] <= 1) else 'thorough', budget=900, per_path=60,
+                              tier='quick' if (_k, _ti) in _Q and (_nl < 5 or _p == 'reversed' or _p[1] - _p[0] <= 1) and (_k != 'tailcmt' or _p in ('reversed', (1, 1), (3, 4), (4, 4))) else 'thorough', budget=900, per_path=60,
                               out="other programs / texts; reparse() with changed parse parameters; 'end' coordinates (C03-K1 covers their clipping)", reset=pc.reset_globals))
 for _k in CARRIERS:
     CELLS.append(Cell(f'P2.raw_replace[{_k}]', _mk_rawput(_k), 'P', FNR + ['fst.fst_put_one._put_one'],
@@ -265,4 +265,4 @@ for _k in ROOTS:
         CELLS.append(Cell(f'P3.root_put_src[{_k},{_tx!r}]', _mk_rootedit(_k, _ti), 'P', FNR,
                           f'root {ROOTS[_k][0]!r} parsed in mode {ROOTS[_k][1]!r} (not a module); rectangle symbolic over Z^4, replacement text {_tx!r}: the call succeeds exactly when the new whole source is valid '
                           'for the root\'s kind (judged by CPython inside the construct that holds such a fragment), tree == that parse, otherwise nothing changes',
-                          tier='quick' if (_k, _ti) in (('list_expr', 0), ('assign_stmt', 0), ('seq_pattern', 0)) else 'thorough', budget=600, per_path=60, reset=pc.reset_globals))
+                          tier='quick' if (_k, _ti) in (('list_expr', 0), ('assign_stmt', 0)) else 'thorough', budget=600, per_path=60, reset=pc.reset_globals))
